@@ -1,5 +1,218 @@
-(* C36 — placeholder while the model is being tied to the code; theorems follow. *)
-From WK Require Import Base.Base Model.Permission.
+(* C36 — Send permission decisions are consistent across paths.
+   Only statements; proofs are in Proof/Permission*.v.
+
+   Vocabulary (Model/Permission.v):
+     facts            finite record: command / configuration flags and the RAW answers
+                      (message.PermissionReadResult) of the seven reads a send can need;
+     decide_single    permission.go (checkSendPermission and its callees) over [facts];
+     decide_batch     send.go routing + permission_batch.go planners' slot shapes +
+                      evaluate{Group,Person}PermissionReadPlan over [facts];
+     precedence       the ordered table of checks; spec_decision = verdict of the first failing;
+     single_outcome   permission.go on byte-string commands over any store function [rd];
+     batch_outcomes   SendBatch with a PermissionBatchStore: coalescing, read list with addRead
+                      de-duplication, index plans, results[index], evaluation — any batch;
+     sig_k1 / k2_cond the structural conditions of the two divergences of the real code
+                      (KNOWN_FINDINGS C36-K1, C36-K2).
+
+   The statement of the property, "for every facts value the two paths return the same
+   decision and reason", is FALSE of the code: c36_paths_agree_refuted / c36_k1_refuted /
+   c36_k2_refuted (witnesses replayed on the code: corpus/C36/k*.json).  What holds is stated
+   with the two exclusions as explicit hypotheses, plus c36_same_admission, which needs none. *)
+From WK Require Import Base.Base Model.ChannelId Model.Permission.
+From WK Require Import Gen.Consts_C36.
+From WK Require Import Proof.Permission Proof.Permission_batch Proof.Permission_monitor.
 Open Scope N_scope.
-Example c36_placeholder : decide_single = checkSendPermission.
-Proof. reflexivity. Qed.
+
+(* ---- decision level: every facts value ---------------------------------------------------------- *)
+
+(* FULL STATEMENT (false, see c36_paths_agree_refuted):
+     forall f, decide_batch f = decide_single f.
+   Proved for every f outside C36-K2 (person channel id that cannot be decoded, sender neither a
+   system uid nor on the system device). *)
+Theorem c36_paths_agree_partial : forall f : facts,
+  k2_cond f = false -> decide_batch f = decide_single f.
+Proof. exact paths_agree. Qed.
+Print Assumptions c36_paths_agree_partial.
+
+Theorem c36_paths_agree_refuted : exists f : facts, decide_batch f <> decide_single f.
+Proof. exact paths_agree_refuted. Qed.
+Print Assumptions c36_paths_agree_refuted.
+
+(* exactly what the two paths return under C36-K2: the batch path reports the decode error
+   before any check, the per-send path reports it after the sender and terminal checks *)
+Theorem c36_k2_characterised : forall f : facts, k2_cond f = true ->
+  decide_batch f = (ReasonSuccess, EPerson)
+  /\ decide_single f = first_failing (sender_checks f ++ terminal_checks f ++ [(true, (0, EPerson))]).
+Proof. exact paths_k2. Qed.
+Print Assumptions c36_k2_characterised.
+
+(* the DECISION (is the send let through) is the same on both paths for every facts value *)
+Theorem c36_same_admission : forall f : facts, ok (decide_batch f) = ok (decide_single f).
+Proof. exact paths_same_admission. Qed.
+Print Assumptions c36_same_admission.
+
+(* fixed precedence: the returned (reason, error) is the verdict of the first failing check of
+   [precedence f]: SendBan first, then the channel's terminal state, then membership checks *)
+Theorem c36_precedence : forall f : facts, decide_single f = first_failing (precedence f).
+Proof. exact single_is_first_failing. Qed.
+Print Assumptions c36_precedence.
+
+Theorem c36_precedence_batch : forall f : facts,
+  k2_cond f = false -> decide_batch f = first_failing (precedence f).
+Proof. exact batch_is_first_failing. Qed.
+Print Assumptions c36_precedence_batch.
+
+(* system senders bypass only the non-terminal checks *)
+Theorem c36_system_uid_bypass : forall f : facts, checked f = true -> f_sender_sys f = true ->
+  decide_single f = first_failing (terminal_checks f)
+  /\ decide_batch f = first_failing (terminal_checks f).
+Proof. exact system_uid_bypass. Qed.
+Print Assumptions c36_system_uid_bypass.
+
+Theorem c36_system_device_bypass : forall f : facts,
+  checked f = true -> f_sender_sys f = false -> f_device_sys f = true ->
+  decide_single f = first_failing (sender_checks f ++ terminal_checks f)
+  /\ decide_batch f = first_failing (sender_checks f ++ terminal_checks f).
+Proof. exact system_device_bypass. Qed.
+Print Assumptions c36_system_device_bypass.
+
+(* the terminal (disbanded) state stops every checked send, whoever sends, on both paths *)
+Theorem c36_disband_terminal : forall f : facts, checked f = true -> target_disbanded f = true ->
+  ok (decide_single f) = false /\ ok (decide_batch f) = false.
+Proof. exact disband_is_terminal. Qed.
+Print Assumptions c36_disband_terminal.
+
+Theorem c36_system_uid_disband : forall f : facts,
+  checked f = true -> f_sender_sys f = true -> target_disbanded f = true ->
+  decide_single f = (ReasonDisband, ENone) /\ decide_batch f = (ReasonDisband, ENone).
+Proof. exact system_uid_disband. Qed.
+Print Assumptions c36_system_uid_disband.
+
+Theorem c36_reasons_distinct :
+  NoDup [ReasonSuccess; ReasonChannelNotExist; ReasonSystemError; ReasonSubscriberNotExist;
+         ReasonInBlacklist; ReasonNotAllowSend; ReasonNotInWhitelist; ReasonBan; ReasonDisband;
+         ReasonSendBan].
+Proof. exact reasons_distinct. Qed.
+Print Assumptions c36_reasons_distinct.
+
+(* ---- full level: byte-string commands, any store, batches of any length --------------------------- *)
+
+(* the read list, addRead de-duplication, index plans and request coalescing are transparent:
+   every item of every batch is decided by [decide_batch] on the facts its own keys select *)
+Theorem c36_batch_itemwise : forall (rd : reader) (cfg : pcfg) (items : list pcmd),
+  batch_outcomes rd cfg items = map (batch_outcome1 rd cfg) items.
+Proof. exact batch_outcomes_itemwise. Qed.
+Print Assumptions c36_batch_itemwise.
+
+(* FULL STATEMENT (false, see c36_k1_refuted, c36_k1_group_refuted, c36_k2_refuted):
+     forall rd cfg items, map obs_of (batch_outcomes rd cfg items)
+                          = map (fun c => obs_of (single_outcome rd cfg c)) items.
+   Proved for batches none of whose items falls under C36-K1 (permission channel id still a
+   command channel) or C36-K2: reason, error class and the channel id handed to the submitter. *)
+Theorem c36_send_batch_agrees_partial : forall (rd : reader) (cfg : pcfg) (items : list pcmd),
+  (forall c, In c items -> sig_k1 c = false /\ k2_cond (facts_single rd cfg c) = false) ->
+  map obs_of (batch_outcomes rd cfg items) = map (fun c => obs_of (single_outcome rd cfg c)) items.
+Proof. exact batch_agrees_single. Qed.
+Print Assumptions c36_send_batch_agrees_partial.
+
+Theorem c36_k1_refuted :
+  sig_k1 k1_cmd = true
+  /\ obs_of (single_outcome k1_reader k1_cfg k1_cmd) = Obs ReasonSuccess 0 (Some (hs "a@b____cmd"))
+  /\ map obs_of (batch_outcomes k1_reader k1_cfg [k1_cmd]) = [Obs ReasonInBlacklist 0 None].
+Proof. exact k1_refuted. Qed.
+Print Assumptions c36_k1_refuted.
+
+Theorem c36_k1_group_refuted :
+  sig_k1 k1g_cmd = true
+  /\ obs_of (single_outcome k1g_reader k1_cfg k1g_cmd) = Obs ReasonSuccess 0 (Some (hs "g____cmd"))
+  /\ map obs_of (batch_outcomes k1g_reader k1_cfg [k1g_cmd]) = [Obs ReasonSuccess 0 (Some (hs "g____cmd____cmd"))].
+Proof. exact k1_group_refuted. Qed.
+Print Assumptions c36_k1_group_refuted.
+
+Theorem c36_k2_refuted :
+  sig_k1 k2_cmd = false /\ k2_cond (facts_single k2_reader k1_cfg k2_cmd) = true
+  /\ obs_of (single_outcome k2_reader k1_cfg k2_cmd) = Obs ReasonSendBan 0 None
+  /\ map obs_of (batch_outcomes k2_reader k1_cfg [k2_cmd]) = [Obs ReasonSuccess 2 None].
+Proof. exact k2_refuted. Qed.
+Print Assumptions c36_k2_refuted.
+
+(* ---- permission cache ------------------------------------------------------------------------------ *)
+
+(* over a store that answers [store k], every history of cached reads, resets and resets racing
+   with a read returns the store's answers — whatever the clock values, TTL and capacity *)
+Theorem c36_cache_transparent :
+  forall (K V : Type) (keqb : K -> K -> bool) (cacheable : V -> bool),
+  (forall a b, keqb a b = true -> a = b) ->
+  forall (store : K -> V) (ttl : N) (ops : list (@cache_op K)),
+  cache_run keqb cacheable store ttl cache_empty ops = map store (read_keys ops).
+Proof. exact @cache_transparent. Qed.
+Print Assumptions c36_cache_transparent.
+
+(* ---- the monitor ------------------------------------------------------------------------------------- *)
+
+(* on every trace the model produces for a batch without C36-K1 / C36-K2 items the monitor
+   holds and the case comparison is clean; so "model = implementation on a case" + the theorems
+   above imply the monitor on that case *)
+Theorem c36_model_satisfies_monitor : forall cfg tbl items,
+  no_divergence cfg tbl items = true ->
+  C36_monitor (model_case cfg tbl items) = 0 /\ C36_mismatch (model_case cfg tbl items) = false.
+Proof. exact model_satisfies_monitor. Qed.
+Print Assumptions c36_model_satisfies_monitor.
+
+(* ---- non-vacuity ---------------------------------------------------------------------------------------- *)
+
+(* a checked, non-system group send that reaches the last check *)
+Example c36_example_group_whitelist :
+  let f := Facts TGroup false false false false false false false false false false AgErr false
+                 (RR true false false false false false false)   (* sender row, no SendBan *)
+                 (RR true false false false false false false)   (* group row, not banned/disbanded *)
+                 zero_result
+                 (RR false false false false false false false)  (* not denied *)
+                 (RR false false false false false true false)   (* subscriber *)
+                 (RR false false false false false true false)   (* allowlist non-empty *)
+                 (RR false false false false false false false)  (* not on it *) in
+  checked f = true /\ k2_cond f = false
+  /\ decide_single f = (ReasonNotInWhitelist, ENone) /\ decide_batch f = (ReasonNotInWhitelist, ENone).
+Proof. vm_compute. repeat split. Qed.
+
+(* the hypotheses of the bypass theorems are satisfiable, and the bypass is visible *)
+Example c36_example_system_uid :
+  let f := Facts TGroup false false false false false true false false false false AgErr false
+                 (RR true true false false false false false)    (* sender SendBan: skipped *)
+                 (RR true false true false false false false)    (* group Ban: skipped *)
+                 zero_result zero_result zero_result zero_result zero_result in
+  checked f = true /\ decide_single f = (ReasonSuccess, ENone) /\ decide_batch f = (ReasonSuccess, ENone).
+Proof. vm_compute. repeat split. Qed.
+
+(* a batch with coalesced duplicates and shared reads, no divergence: hypotheses of
+   c36_model_satisfies_monitor hold and the decisions are not all Success *)
+Example c36_example_batch :
+  let tbl := [(chanRead (hs "a") channelTypePerson, RR true false false false false false false);
+              (chanRead (hs "g") channelTypeGroup, RR true false false false false false false);
+              (containsRead 0 0 (hs "g") channelTypeGroup (hs "a"), RR false false false false false true false);
+              (containsRead 1 channelTypeGroup (hs "g") channelTypeGroup (hs "a"), zero_result);
+              (hasAnyRead 2 channelTypeGroup (hs "g") channelTypeGroup, zero_result);
+              (containsRead 2 channelTypeGroup (hs "g") channelTypeGroup (hs "a"), zero_result);
+              (chanRead (hs "b") channelTypePerson, RR true true false false false false false);
+              (containsRead 0 0 (hs "g") channelTypeGroup (hs "b"), zero_result);
+              (containsRead 1 channelTypeGroup (hs "g") channelTypeGroup (hs "b"), zero_result);
+              (containsRead 2 channelTypeGroup (hs "g") channelTypeGroup (hs "b"), zero_result)] in
+  let items := [PCmd (hs "a") (hs "d") (hs "g") channelTypeGroup false false 0;
+                PCmd (hs "b") (hs "d") (hs "g____cmd") channelTypeGroup false false 0;
+                PCmd (hs "a") (hs "d") (hs "g") channelTypeGroup false false 0] in
+  no_divergence k1_cfg tbl items = true
+  /\ map o_reason (single_obs k1_cfg tbl items) = [ReasonSuccess; ReasonSendBan; ReasonSuccess]
+  /\ C36_monitor (model_case k1_cfg tbl items) = 0.
+Proof. vm_compute. repeat split. Qed.
+
+(* the monitor tells the known divergences (codes 2, 3) from any other disagreement (1) *)
+Example c36_example_monitor_codes :
+  C36_monitor (model_case k1_cfg [(chanRead (hs "a") channelTypePerson, RR true true false false false false false);
+                                  (chanRead (hs "peer") channelTypePerson, zero_result)] [k2_cmd]) = 3
+  /\ C36_monitor (C36Case k1_cfg [(chanRead (hs "a") channelTypePerson, RR true true false false false false false);
+                                  (chanRead (hs "g") channelTypeGroup, RR true false false false false false false)]
+                    [PCmd (hs "a") (hs "d") (hs "g") channelTypeGroup false false 0]
+                    [(0, [Obs ReasonSendBan 0 None]); (1, [Obs ReasonSendBan 0 None]); (2, [Obs ReasonSendBan 0 None]);
+                     (3, [Obs ReasonSendBan 0 None]); (4, [Obs ReasonSuccess 0 (Some (hs "g"))]);
+                     (5, [Obs ReasonSendBan 0 None]); (6, [Obs ReasonSendBan 0 None]); (7, [Obs ReasonSendBan 0 None])]) = 1.
+Proof. split; [exact monitor_k2_example | exact monitor_violation_example]. Qed.
